@@ -204,3 +204,55 @@ Proof.
 Qed.
 
 End MatVec.
+
+(* ------------------------------------------------------------------ what norm_max does satisfy under the product *)
+Section EntriesMaxMul.
+Variables (r k c : nat) (f g : nat -> nat -> R).
+Let h := fun i j => Rs k (fun q => f i q * g q j).
+
+Lemma nmax_mul Ax Ai Bx B1 Hx :
+  ismax (Pmax r k f) Ax -> ismax (Pinf r k f) Ai -> ismax (Pmax k c g) Bx -> ismax (P1 k c g) B1 ->
+  ismax (Pmax r c h) Hx ->
+  Hx <= INR k * Ax * Bx /\ Hx <= Ai * Bx /\ Hx <= Ax * B1.
+Proof.
+  intros HAx HAi HBx HB1 HHx.
+  pose proof (ismax_nonneg _ _ HAx (Pmax_nonneg r k f)) as PAx. pose proof (ismax_nonneg _ _ HAi (Pinf_nonneg r k f)) as PAi.
+  pose proof (ismax_nonneg _ _ HBx (Pmax_nonneg k c g)) as PBx. pose proof (ismax_nonneg _ _ HB1 (P1_nonneg k c g)) as PB1.
+  assert (Hf : forall i q, (i < r)%nat -> (q < k)%nat -> Rabs (f i q) <= Ax) by (intros i q Hi Hq; apply (proj1 HAx); exists i, q; auto).
+  assert (Hg : forall q j, (q < k)%nat -> (j < c)%nat -> Rabs (g q j) <= Bx) by (intros q j Hq Hj; apply (proj1 HBx); exists q, j; auto).
+  split; [|split].
+  - apply (ismax_le _ _ _ HHx); [apply Rmult_le_pos; [apply Rmult_le_pos; [apply pos_INR|]|]; auto|].
+    intros x (i & j & Hi & Hj & ->). eapply Rle_trans; [apply (abs_h_le k f g i j)|].
+    rewrite Rmult_assoc, <- Rs_const. apply Rs_le. intros q Hq.
+    apply Rmult_le_compat; try apply Rabs_pos; auto.
+  - apply (ismax_le _ _ _ HHx); [apply Rmult_le_pos; auto|].
+    intros x (i & j & Hi & Hj & ->). eapply Rle_trans; [apply (abs_h_le k f g i j)|].
+    apply Rle_trans with (rsum k f i * Bx).
+    + unfold rsum. rewrite <- Rs_scal_r. apply Rs_le. intros q Hq. apply Rmult_le_compat_l; [apply Rabs_pos|auto].
+    + apply Rmult_le_compat_r; auto. apply (proj1 HAi). exists i; auto.
+  - apply (ismax_le _ _ _ HHx); [apply Rmult_le_pos; auto|].
+    intros x (i & j & Hi & Hj & ->). eapply Rle_trans; [apply (abs_h_le k f g i j)|].
+    apply Rle_trans with (Ax * csum k g j).
+    + unfold csum. rewrite <- Rs_scal. apply Rs_le. intros q Hq. apply Rmult_le_compat_r; [apply Rabs_pos|auto].
+    + apply Rmult_le_compat_l; auto. apply (proj1 HB1). exists j; auto.
+Qed.
+End EntriesMaxMul.
+
+Lemma matnorm_max_mul_lemma (a b : matrix AR) : wf a -> wf b -> cols a = rows b ->
+  exists p ax ai bx b1 px, mat_mul (A:=AR) a b = Ok p /\
+    mnorm_max (S:=SAR) a = Ok ax /\ mnorm_inf (S:=SAR) a = Ok ai /\
+    mnorm_max (S:=SAR) b = Ok bx /\ mnorm_1 (S:=SAR) b = Ok b1 /\ mnorm_max (S:=SAR) p = Ok px /\
+    px <= INR (cols a) * ax * bx /\ px <= ai * bx /\ px <= ax * b1.
+Proof.
+  intros Hwa Hwb Hk. pose proof (msp_self a Hwa) as Ha. pose proof (msp_self b Hwb) as Hb.
+  rewrite Hk in *.
+  destruct (mat_mul_msp _ _ _ _ _ a b Ha Hb) as (p & Ep & Hp).
+  change (msp (A:=AR) (rows a) (cols b)
+            (fun i j => Rs (rows b) (fun q => entry (A:=AR) a i q * entry (A:=AR) b q j)) p) in Hp.
+  destruct (nmax_msp _ _ _ a Ha) as (ax & Eax & Hax). destruct (ninf_msp _ _ _ a Ha) as (ai & Eai & Hai).
+  destruct (nmax_msp _ _ _ b Hb) as (bx & Ebx & Hbx). destruct (n1_msp _ _ _ b Hb) as (b1 & Eb1 & Hb1).
+  destruct (nmax_msp _ _ _ p Hp) as (px & Epx & Hpx).
+  exists p, ax, ai, bx, b1, px. split; [exact Ep|]. split; [exact Eax|]. split; [exact Eai|].
+  split; [exact Ebx|]. split; [exact Eb1|]. split; [exact Epx|].
+  exact (nmax_mul _ _ _ _ _ _ _ _ _ _ Hax Hai Hbx Hb1 Hpx).
+Qed.
